@@ -8,9 +8,11 @@ package otr3
 import (
 	"fmt"
 	"math/big"
+	"reflect"
 	"sort"
 	"strings"
 	"time"
+	"unsafe"
 )
 
 func verifVersion(v int) otrVersion {
@@ -555,4 +557,106 @@ func VerifSendTLVs(c *Conversation, text []byte, types []uint16, values [][]byte
 	}
 	msgs, _, err := c.createSerializedDataMessage(text, messageFlagIgnoreUnreadable, tlvs)
 	return msgs, err
+}
+
+// VerifHit says that needle number Needle occurs in the byte buffer (or big integer) found at Path.
+type VerifHit struct {
+	Needle int
+	Path   string
+	Buf    []byte   // alias of the buffer (nil for big integers)
+	Int    *big.Int // alias of the integer (nil for byte buffers)
+}
+
+// VerifScan walks the object graph reachable from the conversation (not following the randomness
+// source, the long-term keys and the event handlers) and reports every occurrence of a needle.
+// It also returns the number of bytes held in reachable byte buffers and big integers.
+func VerifScan(c *Conversation, needles [][]byte) (hits []VerifHit, total int) {
+	seen := map[uintptr]bool{}
+	var walk func(v reflect.Value, path string, depth int)
+	check := func(b []byte, path string, alias []byte, ai *big.Int) {
+		total += len(b)
+		for i, n := range needles {
+			if len(n) > 0 && len(b) >= len(n) && bytesContains(b, n) {
+				hits = append(hits, VerifHit{i, path, alias, ai})
+			}
+		}
+	}
+	skip := map[string]bool{"Rand": true, "ourKeys": true, "ourCurrentKey": true, "theirKey": true, "smpEventHandler": true, "errorMessageHandler": true,
+		"messageEventHandler": true, "securityEventHandler": true, "receivedKeyHandler": true, "RWMutex": true, "messageTransform": true}
+	bigIntType := reflect.TypeOf(big.Int{})
+	walk = func(v reflect.Value, path string, depth int) {
+		if depth > 40 || !v.IsValid() {
+			return
+		}
+		if v.CanAddr() && !v.CanInterface() {
+			v = reflect.NewAt(v.Type(), unsafe.Pointer(v.UnsafeAddr())).Elem()
+		}
+		switch v.Kind() {
+		case reflect.Ptr:
+			if v.IsNil() || seen[v.Pointer()] {
+				return
+			}
+			seen[v.Pointer()] = true
+			if v.Type().Elem() == bigIntType {
+				bi := v.Interface().(*big.Int)
+				check(bi.Bytes(), path, nil, bi)
+				return
+			}
+			walk(v.Elem(), path, depth+1)
+		case reflect.Interface:
+			if !v.IsNil() {
+				walk(v.Elem(), path, depth+1)
+			}
+		case reflect.Struct:
+			for i := 0; i < v.NumField(); i++ {
+				name := v.Type().Field(i).Name
+				if skip[name] {
+					continue
+				}
+				walk(v.Field(i), path+"."+name, depth+1)
+			}
+		case reflect.Slice:
+			if v.IsNil() {
+				return
+			}
+			if v.Type().Elem().Kind() == reflect.Uint8 {
+				b := v.Bytes()
+				// look at the whole backing array up to cap: data behind len is still retained
+				full := b[:cap(b)]
+				check(full, path, full, nil)
+				return
+			}
+			for i := 0; i < v.Len(); i++ {
+				walk(v.Index(i), fmt.Sprintf("%s[%d]", path, i), depth+1)
+			}
+		case reflect.Array:
+			if v.Type().Elem().Kind() == reflect.Uint8 && v.CanAddr() {
+				b := v.Slice(0, v.Len()).Bytes()
+				check(b, path, b, nil)
+				return
+			}
+			for i := 0; i < v.Len(); i++ {
+				walk(v.Index(i), fmt.Sprintf("%s[%d]", path, i), depth+1)
+			}
+		case reflect.Map:
+			for _, k := range v.MapKeys() {
+				walk(v.MapIndex(k), path+"[k]", depth+1)
+			}
+		}
+	}
+	walk(reflect.ValueOf(c).Elem(), "c", 0)
+	return
+}
+
+func bytesContains(b, n []byte) bool {
+	for i := 0; i+len(n) <= len(b); i++ {
+		j := 0
+		for j < len(n) && b[i+j] == n[j] {
+			j++
+		}
+		if j == len(n) {
+			return true
+		}
+	}
+	return false
 }
